@@ -228,12 +228,23 @@ def run(ctx):
             G = gs[-1] if rep == 0 else rng.choice(gs)
             S = rng.randint(1, 3)
             plan.append((f, G, S, kinds[rep % len(kinds)] if rep else "wide"))
+    # grids with more than 256 points (anything that stores grid indices in a narrow integer type, or tabulates up to a fixed
+    # size, shows only there): one- and two-clone shapes, likelihoods peaking at a high index
+    for f in [sh for sh in shapes if sum(_tsize(t) for t in sh) <= 2]:
+        for G in ((301,) if sum(_tsize(t) for t in f) == 1 else (257,)) if quick else (257, 301):
+            plan.append((f, G, rng.randint(1, 2), "high"))
     records = []
     tasks = []
     for ci, (f, G, S, kind) in enumerate(plan):
         roots, npts = assign_points(rng, f, 2)
         n_out = rng.choice((0, 0, 1, 2))
-        grids = [[gen_grid(rng, kind, G) for _ in range(S)] for _ in range(npts + n_out)]
+        if kind == "high":
+            grids = [[gen_grid(rng, "wide", G) for _ in range(S)] for _ in range(npts + n_out)]
+            for g in grids:
+                for row in g:
+                    row[rng.randrange(256, G)] += 1000
+        else:
+            grids = [[gen_grid(rng, kind, G) for _ in range(S)] for _ in range(npts + n_out)]
         # half of the trees go through the edits a sampler / the trace applies before the summary sees them
         history = []
         if rng.random() < 0.5:
